@@ -227,6 +227,9 @@ def loop_inv(vm, fr):
     ctx = vm.ctx
     # the counter is "the int-valued local of the frame" (robust against renaming)
     ints = [v for k, v in fr.locals.items() if isinstance(v, (int, SInt)) and not isinstance(v, bool)]
+    if not ints:
+        # ... or an integer the quantifier keeps on itself (then other evaluations of the same node can reach it: C03)
+        ints = [v for k, v in fr.locals["self"].fields.items() if isinstance(v, (int, SInt)) and not isinstance(v, bool) and k != "_id_"]
     if len(ints) != 1:
         from pyvc.ctx import Unsupported
         raise Unsupported(f"loop invariant: expected one integer local (the solution counter), found {len(ints)}")
